@@ -12,10 +12,18 @@ Ev == TraceLog[l]
 Good(r) == /\ r.crash = "" /\ r.ok
            /\ Sound(r.traits, r.shape) /\ r.dim = Len(r.shape) /\ r.size = Prod(r.shape) /\ Len(r.elems) = Prod(r.shape)
            /\ r.eval_shape = r.shape /\ r.eval_elems = r.elems /\ Sound(r.eval_traits, r.eval_shape)
+\* "join" events (drv_clipped): a shape tuple<clipped<B1>,..> holding the extents; the joined index type must contain the
+\* range of every axis (it may be wider than AbsJoin, not narrower), every extent read at a run-time position is the extent
+GoodJoin(e) == LET a == [i \in 1..Len(e.bounds) |-> <<"clip", e.bounds[i]>>] r == e.res IN
+    /\ r.crash = "" /\ r.ok
+    /\ \A i \in 1..Len(a) : RangeContains(r.join, RangeOfAxis(a[i]))
+    /\ r.at = e.extents /\ r.direct = e.extents /\ r.product = Prod(e.extents)
+    /\ \A i \in 1..Len(a) : ClipInto(r.join, e.extents[i]) = e.extents[i]
+IsJoin == "op" \in DOMAIN Ev /\ Ev.op = "join"
 TInit == l = 1 /\ bad = <<>> /\ abs = <<>> /\ abs2 = <<>>
 TOp == /\ l <= Len(TraceLog)
-       /\ bad' = IF "traits" \in DOMAIN Ev.res /\ Good(Ev.res) THEN bad
-                 ELSE Append(bad, [l |-> l, id |-> Ev.id, why |-> IF "traits" \in DOMAIN Ev.res THEN "static information unsound or evaluation incomplete" ELSE "crash", expect |-> [ok |-> TRUE]])
+       /\ bad' = IF (IsJoin /\ "join" \in DOMAIN Ev.res /\ GoodJoin(Ev)) \/ (~IsJoin /\ "traits" \in DOMAIN Ev.res /\ Good(Ev.res)) THEN bad
+                 ELSE Append(bad, [l |-> l, id |-> Ev.id, why |-> IF "join" \in DOMAIN Ev.res THEN "the joined index type of a clipped shape loses an extent" ELSE IF "traits" \in DOMAIN Ev.res THEN "static information unsound or evaluation incomplete" ELSE "crash", expect |-> [ok |-> TRUE]])
        /\ l' = l + 1 /\ UNCHANGED vars
 TFinish == /\ l = Len(TraceLog) + 1 /\ ndJsonSerialize(IOEnv.OUT, bad) /\ l' = l + 1 /\ UNCHANGED <<bad, vars>>
 TNext == TOp \/ TFinish
